@@ -42,6 +42,10 @@ class Gen:
         self.dead_ctxs = []   # refs believed unregistered again / never registered
         self.topics = list(self.p.get("topics", TOPICS))
         self.stats = {}
+        # wild histories deliberately leave the theorems' hypotheses (known-finding classes:
+        # id collisions on import, context 2^128-1, NUL in a queried head topic, ...); they
+        # validate the model there but the spec oracle stops at the first such op
+        self.wild = profile.get("wild", False)
 
     def emit(self, line, kind):
         self.lines.append(line)
@@ -51,7 +55,7 @@ class Gen:
     def pick_ctx(self, for_write=True):
         r = self.r.random()
         if r < 0.08 and for_write:
-            return self.r.choice(["#7", "#ffffffffffffffffffffffffffffffff"] + self.dead_ctxs)
+            return self.r.choice(["#7"] + (["#ffffffffffffffffffffffffffffffff"] if self.wild else []) + self.dead_ctxs)
         return self.r.choice(self.ctxs)
 
     def pick_topic(self):
@@ -84,7 +88,7 @@ class Gen:
             f"{xh(meta) if meta is not None else '-'} {ttl}", "append")
         if ttl != "ephemeral" and "\x00" not in topic and ctx in self.ctxs:
             self.frames.append(dict(line=ln, ctx=ctx, topic=topic, ttl=ttl, kind="append"))
-        if topic not in self.topics:
+        if topic not in self.topics and ("\x00" not in topic or self.wild):
             self.topics.append(topic)
 
     def op_bad_ctx_append(self):
@@ -103,7 +107,7 @@ class Gen:
             base = self.r.choice(self.ctxs[1:]) if len(self.ctxs) > 1 and self.r.random() < 0.6 else None
             idx = f"{base}+1" if base and base.startswith("@") else "#%x" % self.r.randrange(1, 2 ** 20)
             kind = "import_reg"
-            rttl = self.r.choice(["-", "forever", "head:1", ttl])
+            rttl = self.r.choice(["-", "forever", "head:1", ttl if self.wild or not ttl.startswith("time") else "-"])
             ln = self.emit(f"import {idx} - {xh(XS_CONTEXT)} - {xh(meta) if meta else '-'} {rttl}", kind)
             self.ctxs.append(f"@{ln}")
             self.frames.append(dict(line=ln, ctx="-", topic=XS_CONTEXT, ttl=rttl, kind="ctx"))
@@ -111,7 +115,7 @@ class Gen:
         if r < p_reg + p_collide and self.frames:
             # re-import an existing id: same or different topic/context (F7 when different)
             f = self.r.choice(self.frames)
-            same = self.r.random() < 0.5
+            same = self.r.random() < 0.5 or not self.wild
             ctx = f["ctx"] if same else self.pick_ctx()
             topic = f["topic"] if same else self.pick_topic()
             ln = self.emit(f"import @{f['line']} {ctx} {xh(topic)} {hsh} {xh(meta) if meta else '-'} {ttl}",
@@ -125,8 +129,10 @@ class Gen:
             f = self.r.choice(self.frames)
             idx = f"@{f['line']}{self.r.choice(['+1', '-1', '+2'])}"
         else:
-            idx = "#%x" % self.r.choice([2 ** 127, 2 ** 128 - 2, 2 ** 128 - 1])
+            idx = "#%x" % self.r.choice([2 ** 127, 2 ** 128 - 2, 2 ** 128 - 1] + ([0] if self.wild else []))
         ctx = self.r.choice(self.ctxs + self.dead_ctxs + ["#7"]) if self.r.random() < 0.9 else "#%x" % self.r.randrange(1, 2 ** 64)
+        if self.wild and self.r.random() < 0.1:
+            ctx = "#ffffffffffffffffffffffffffffffff"
         topic = self.pick_topic()
         ln = self.emit(f"import {idx} {ctx} {xh(topic)} {hsh} {xh(meta) if meta else '-'} {ttl}", "import")
         if "\x00" not in topic:
@@ -187,7 +193,7 @@ class Gen:
         self.r.shuffle(pairs)
         for t, c in pairs[: (14 if full else 4)]:
             self.emit(f"head {xh(t)} {c}", "probe_head")
-        if self.r.random() < self.p.get("p_nul_head", 0.1):
+        if self.wild and self.r.random() < self.p.get("p_nul_head", 0.1):
             self.emit(f"head {xh(self.r.choice(NUL_TOPICS))} {self.r.choice(self.ctxs)}", "probe_head_nul")
         for c in (self.ctxs + self.dead_ctxs + ["#7"])[-6:]:
             self.emit(f"append {c} {xh('probe')} - - ephemeral", "probe_ctx")
